@@ -18,9 +18,9 @@ CHECKS = {
    design="5/C07", technique="Coq proof (overlay algebra via lookup extensionality) + extracted-model differential tie on stack histories",
    note="theorem is over decoded tables; write/read-back of the merged records rests on the C01 tie/theorems; single handle (interleavings are C04)"),
  "C12": dict(
-   text="Coq theorems: the validator as coded (sort.SearchStrings, prefix scan skipping deleted names, parent walk) accepts a transaction IFF the resulting set of live names is conflict-free, for all views and transactions; invariant over all histories; delete-a-and-create-a/b accepted; tied on every run through Stack.Add over a conflict-rich 14-name alphabet, with the extracted conflict_free_b as oracle",
+   text="Coq theorems: the validator as coded (sort.SearchStrings, prefix scan skipping deleted names, parent walk) accepts a transaction IFF the resulting set of live names is conflict-free, for all views and transactions; invariant over all histories; delete-a-and-create-a/b accepted; multi-table Additions (C12_addition: every table validated against the view including the Addition's earlier tables); tied on every run through Stack.Add and through NewAddition/Add.../Commit with 2..3 tables over a conflict-rich 14-name alphabet, with the extracted conflict_free_b as oracle",
    design="5/C12", technique="Coq proof (sound+complete validator, invariant by induction over histories) + extracted-model differential tie",
-   note="multi-table Additions: each table is validated against the view before the Addition (C12_addition_pinned_refuted is the regression statement; see known_findings S5); linear scan in place of binary search on ascending input"),
+   note="a multi-table Addition is judged table by table (what the code does after fix S5; C12_addition_pinned_refuted is the regression statement for the pinned behaviour); linear scan in place of binary search on ascending input"),
  "C13": dict(
    text="Coq theorems: CompactAll with an expiry configuration yields exactly filter keep_log of the previous reflog view with refs untouched, for all stacks and all configurations; keep_log is proved equivalent to the documented rule (time strictly older / index outside window; 0 = unset). Tied on every run: real CompactAll(expiry) on histories vs the composed model, oracle computed from the implementation's own before/after views",
    design="5/C13", technique="Coq proof (corollary of the compaction algebra) + extracted-model differential tie",
